@@ -3,6 +3,7 @@
 from __future__ import annotations
 
 import hashlib
+import copy
 import io
 import json
 import os
@@ -36,6 +37,7 @@ RULE = (
     ">= 2 distinct documents in which a state-touching document precedes another document, or a parallel build "
     "pair; distinct by history hash."
 )
+RULE += (' Writer documents include a per-file configuration with figure-md, and the deprecated top-level front-matter keys (each use owes its warning in every document).')
 ASSUMPTIONS = [
     "the harness does not own the OS schedule: parallel reads are sampled through worker counts only (Sphinx chunks "
     "the documents itself)",
@@ -106,6 +108,33 @@ def run_mode(mode, text, cfg, tmp, shared):
         md = create_md_parser(config, DocutilsRenderer)
         md.options["document"] = document
         md.render(text)
+        return normalise(document.pformat() + "\n--\n" + stream.getvalue(), tmp)
+    if mode == "settings":
+        # the docutils way of passing a configuration is a settings object: one object per configuration, reused for
+        # every document parsed with it (Parser.parse + the standalone reader's and the parser's transforms)
+        from docutils.frontend import get_default_settings
+        from docutils.readers.standalone import Reader
+        from docutils.utils import new_document
+
+        from myst_parser.parsers.docutils_ import Parser
+
+        key = json.dumps(cfg, sort_keys=True)
+        pool = shared.setdefault("settings", {}) if shared is not None else {}
+        st_ = pool.get(key)
+        stream = io.StringIO()
+        if st_ is None:
+            st_ = get_default_settings(Parser, Reader)
+            for k, v in front.base_settings(stream).items():
+                setattr(st_, k, v)
+            for k, v in cfg.items():
+                setattr(st_, "myst_" + k, copy.deepcopy(v))
+            pool[key] = st_
+        st_.warning_stream = stream
+        document = new_document(os.path.join(tmp, "main.md"), st_)
+        parser = Parser()
+        parser.parse(text, document)
+        document.transformer.populate_from_components((Reader(), parser))
+        document.transformer.apply_transforms()
         return normalise(document.pformat() + "\n--\n" + stream.getvalue(), tmp)
     if mode == "sphinx":
         cfg2 = {k: v for k, v in cfg.items() if k not in ("suppress_warnings", "highlight_code_blocks", "inventories")}
@@ -225,8 +254,13 @@ STATEFUL = [
     # the deprecated top-level spellings of two front-matter keys: each use is reported, in every document
     "---\nsubstitutions:\n  key1: top-level value\nhtml_meta:\n  keywords: k\n---\n# Dep\n\n{{ key1 }}\n",
     "---\nhtml_meta:\n  description: d\n---\npara\n",
+    # per-file footnote options: they are handed to the transforms through the settings object
+    "---\nmyst:\n  footnote_sort: false\n  footnote_transition: false\n---\nx [^b] [^a]\n\n[^a]: A\n\n[^b]: B\n\nafter\n",
+    "---\nmyst:\n  footnote_transition: false\n---\nx [^k]\n\n[^k]: K\n",
 ]
 
+
+INV_URLS = ["https://e.org/", "https://other.org/v2/"]
 
 # documents whose rendering would change if state leaked from another parse
 OBSERVERS = [
@@ -239,6 +273,7 @@ OBSERVERS = [
     "[c](x:obs) and <wiki:Obs> and [d](wiki:D){.own}\n",                                          # classes accumulated on a url scheme
     "<img src=\"o2.png\" alt=\"obs\">\n\n<div class=\"admonition tip\">\n<p>obs body</p>\n</div>\n\npara <img src=\"i.png\"> inline\n",  # HTML tokenizer state
     "---\nsubstitutions:\n  key1: observer value\n---\n{{ key1 }}\n",                   # a warning owed to every document that uses the deprecated key
+    "x [^b] [^a]\n\n[^a]: A\n\n[^b]: B\n\nafter the definitions\n",                       # footnote sorting / transition selected by another document
 ]
 
 
@@ -297,7 +332,7 @@ def _restore_docutils_registries(snap):
 
 
 def sub_history(acc, shard, nshards, tier, seed):
-    _history(acc, shard, nshards, tier, seed, ("docutils", "shared"))
+    _history(acc, shard, nshards, tier, seed, ("docutils", "shared", "settings"))
 
 
 def sub_history_sphinx(acc, shard, nshards, tier, seed):
@@ -340,13 +375,14 @@ def _history(acc, shard, nshards, tier, seed, modes):
         def setup(self, pool, ncfg):
             # only 1-3 distinct configurations per run, so that different documents really share one configuration object
             cfgs = [clean_cfg(p["cfg"]) for p in pool[:ncfg]]
-            self.pool = [{**p, "cfg": cfgs[j % len(cfgs)]} for j, p in enumerate(pool)]
+            # (the configurations share one inventory *file* but name it under different base URLs)
+            self.pool = [{**p, "cfg": cfgs[j % len(cfgs)], "inv_url": INV_URLS[(j % len(cfgs)) % len(INV_URLS)]} for j, p in enumerate(pool)]
 
         def _step(self, mode, i):
             p = self.pool[i % len(self.pool)]
             cfg = dict(p["cfg"])
             if mode != "sphinx":
-                cfg["inventories"] = {"good": ["https://e.org/", os.path.join(inv_dir, "objects.inv")]}
+                cfg["inventories"] = {"good": [p["inv_url"], os.path.join(inv_dir, "objects.inv")]}
             self.history.append((mode, i % len(self.pool)))
             req = {"mode": mode, "text": p["text"], "cfg": cfg, "files": INC}
             status, ref = pristine.reference(req)
@@ -368,7 +404,7 @@ def _history(acc, shard, nshards, tier, seed, modes):
                 a, b = ref if status == "ok" else "EXC " + ref, got[1] if got[0] == "ok" else "EXC " + got[1]
                 k = next((j for j in range(min(len(a), len(b))) if a[j] != b[j]), min(len(a), len(b)))
                 v = mkv(f"C15:output-differs-from-pristine:{mode}",
-                        {"history": hist, "pool": [{"text": q["text"], "cfg": q["cfg"]} for q in self.pool]},
+                        {"history": hist, "pool": [{"text": q["text"], "cfg": q["cfg"], "inv_url": q["inv_url"]} for q in self.pool]},
                         a[max(0, k - 200):k + 300], b[max(0, k - 200):k + 300])
                 if kn.matches(v):
                     acc.known_hits[v["signature"]] += 1
@@ -385,6 +421,11 @@ def _history(acc, shard, nshards, tier, seed, modes):
         @rule(i=st.integers(0, 7))
         def parse_shared_config(self, i):
             self._step("shared", i)
+
+        @precondition(lambda self: "settings" in modes)
+        @rule(i=st.integers(0, 7))
+        def parse_reused_settings(self, i):
+            self._step("settings", i)
 
         @precondition(lambda self: "sphinx" in modes)
         @rule(i=st.integers(0, 7))
@@ -469,6 +510,19 @@ def make_project(draw_int, n_docs):
 def build_project(files, parallel):
     conf = {"myst_enable_extensions": ["substitution", "amsmath", "dollarmath", "strikethrough"],
             "myst_substitutions": {"key1": "global value"}, "myst_heading_anchors": 1}
+    import multiprocessing
+
+    # the check's own workers are daemonic pool processes, which may not fork; Sphinx' parallel read must fork
+    me = multiprocessing.current_process()
+    was_daemon = me._config.get("daemon")
+    me._config["daemon"] = False
+    try:
+        return _build_project(conf, files, parallel)
+    finally:
+        me._config["daemon"] = was_daemon
+
+
+def _build_project(conf, files, parallel):
     with front.sphinx_project(confoverrides=conf, files=files, parallel=parallel) as proj:
         warn = proj.build()
         out = {}
@@ -488,17 +542,39 @@ def sub_parallel(acc, shard, nshards, tier, seed):
     n_pairs = 1 if tier == "quick" else 12
     mk = acc.violation
     kn = known()
-    for k in range(n_pairs):
+    for k in range(n_pairs + 1):
         rng = random.Random(shard_seed(seed, shard, 1000 + k))
         n_docs = rng.randint(8, 12)
-        files = make_project(lambda lo, hi: rng.randint(lo, hi), n_docs)
+        if k == n_pairs:
+            # one dense project per shard: every document uses every construct kind (in a rotated order), so that whatever
+            # per-worker state exists is touched by every document of every chunk
+            n_docs = 9   # (not 10: the draw (0, 9) must mean "construct kind" only)
+
+            def dense(lo, hi, _state={"i": 0, "doc": -1, "left": 0}):
+                st_ = _state
+                if (lo, hi) == (0, 2):       # front matter? (first draw of a document)
+                    st_["doc"] += 1
+                    st_["left"] = -1
+                    return st_["doc"] % 3
+                if (lo, hi) == (2, 5):       # number of blocks -> all ten kinds
+                    st_["left"] = 10
+                    st_["i"] = st_["doc"]
+                    return 10
+                if (lo, hi) == (0, 9):
+                    st_["i"] += 1
+                    return st_["i"] % 10
+                return rng.randint(lo, hi)
+
+            files = make_project(dense, n_docs)
+        else:
+            files = make_project(lambda lo, hi: rng.randint(lo, hi), n_docs)
         workers = rng.choice([2, 3, 4])
         try:
             h1, w1 = build_project(files, 1)
             hn, wn = build_project(files, workers)
         except Exception as exc:  # noqa: BLE001
-            acc.excluded[f"build-raises:{type(exc).__name__}"] += 1
-            continue
+            # the generated projects are valid by construction: a build that raises is a harness problem, not a case to skip
+            raise HarnessError(f"parallel sub-check: Sphinx build raised {type(exc).__name__}: {exc}") from exc
         case = {"files": files, "workers": workers}
         vs = []
         if h1 != hn:
@@ -520,7 +596,8 @@ def sub_parallel(acc, shard, nshards, tier, seed):
 def sub_pairs(acc, shard, nshards, tier, seed):
     """Every (writer, observer) pair and every (writer, writer-again) pair, with one shared configuration object: parse
     the writer, then the second document; the second output must equal its pristine reference (exhaustive over the
-    document tables; docutils renderer with a shared config in all shards, long-lived Sphinx app in addition)."""
+    document tables; docutils renderer with a shared config object and docutils parser with a reused settings object in
+    all shards, long-lived Sphinx app in addition)."""
     pristine = Pristine()
     snapshot = _snapshot_docutils_registries()
     mk = acc.violation
@@ -536,7 +613,7 @@ def sub_pairs(acc, shard, nshards, tier, seed):
     base_cfg = clean_cfg({"enable_extensions": ["html_image", "html_admonition", "strikethrough", "colon_fence", "deflist", "tasklist"],
                           "heading_anchors": 2})
     seconds = [("obs", k, t) for k, t in enumerate(OBSERVERS)]
-    modes = ["shared", "sphinx"] if shard % 2 == 0 else ["shared"]
+    modes = ["shared", "settings", "sphinx"] if shard % 2 == 0 else ["shared", "settings"]
     i = 0
     try:
         for mode in modes:
@@ -548,26 +625,33 @@ def sub_pairs(acc, shard, nshards, tier, seed):
                     if mode == "sphinx" and tier == "quick" and (wi + k) % 3:
                         continue
                     cfg = dict(base_cfg)
+                    ocfg = cfg
                     if mode != "sphinx":
-                        cfg["inventories"] = {"good": ["https://e.org/", os.path.join(inv_dir, "objects.inv")]}
+                        cfg["inventories"] = {"good": [INV_URLS[0], os.path.join(inv_dir, "objects.inv")]}
+                        ocfg = cfg
+                        if (wi + k) % 2:
+                            # every other pair: the second document's configuration names the same inventory file under
+                            # another base URL (the two then do not share a configuration object)
+                            ocfg = {**cfg, "inventories": {"good": [INV_URLS[1], os.path.join(inv_dir, "objects.inv")]}}
                     shared = {}
                     _restore_docutils_registries(snapshot)
                     if mode == "sphinx":
                         shared["sphinx"] = front.SphinxProject()
                     try:
-                        status, ref = pristine.reference({"mode": mode, "text": otext, "cfg": cfg, "files": INC})
+                        status, ref = pristine.reference({"mode": mode, "text": otext, "cfg": ocfg, "files": INC})
                         try:
                             run_mode(mode, wtext, cfg, tmp, shared)
                         except Exception:  # noqa: BLE001
                             pass
                         try:
-                            got = ("ok", run_mode(mode, otext, cfg, tmp, shared))
+                            got = ("ok", run_mode(mode, otext, ocfg, tmp, shared))
                         except Exception as exc:  # noqa: BLE001
                             got = ("exc", f"{type(exc).__name__}: {exc}")
                     finally:
                         if "sphinx" in shared:
                             shared["sphinx"].close()
-                    case = {"history": [[mode, 0], [mode, 1]], "pool": [{"text": wtext, "cfg": cfg}, {"text": otext, "cfg": cfg}]}
+                    case = {"history": [[mode, 0], [mode, 1]], "pool": [{"text": wtext, "cfg": cfg, "inv_url": INV_URLS[0]},
+                                                                        {"text": otext, "cfg": cfg, "inv_url": INV_URLS[0 if ocfg is cfg else 1]}]}
                     acc.case(("pairs", mode, wi, kind, k), True, [f"mode:{mode}", f"second:{kind}"],
                              sample={"mode": mode, "first": wtext[:120], "second": otext[:120]})
                     if got != (status, ref) and not (status == "exc" and got[0] == "exc"):
@@ -618,7 +702,7 @@ def replay(sub, input):
             p = input["pool"][i]
             cfg = dict(p["cfg"])
             if mode != "sphinx":
-                cfg["inventories"] = {"good": ["https://e.org/", os.path.join(inv_dir, "objects.inv")]}
+                cfg["inventories"] = {"good": [p.get("inv_url", INV_URLS[0]), os.path.join(inv_dir, "objects.inv")]}
             status, ref = pristine.reference({"mode": mode, "text": p["text"], "cfg": cfg, "files": INC})
             try:
                 got = ("ok", run_mode(mode, p["text"], cfg, tmp, shared))
